@@ -21,6 +21,8 @@ pub fn program(name: &str) -> &'static [u8] {
                       ins(0xb7, 5, 0, 0, 0), ins(0x85, 0, 0, 0, 1), ins(0x95, 0, 0, 0, 0)]),
         "P5" => cat(&[ins(0xbf, 1, 10, 0, 0), ins(0x85, 0, 1, 0, 1), ins(0x95, 0, 0, 0, 0),
                       ins(0xbf, 0, 1, 0, 0), ins(0x1f, 0, 10, 0, 0), ins(0x95, 0, 0, 0, 0)]),
+        "P6" => cat(&[ins(0xb7, 2, 0, 0, 0), ins(0xbf, 1, 10, 0, 0), ins(0x85, 0, 1, 0, 1), ins(0x95, 0, 0, 0, 0),
+                      ins(0xbf, 0, 1, 0, 0), ins(0x1f, 0, 10, 0, 0), ins(0x95, 0, 0, 0, 0)]),
         "P7" => cat(&[ins(0x30, 0, 0, 0, 0), ins(0x95, 0, 0, 0, 0)]),
         "P8" => cat(&[ins(0x79, 0, 1, 0x50, 0), ins(0x79, 2, 1, 0x40, 0), ins(0x1f, 0, 2, 0, 0), ins(0x95, 0, 0, 0, 0)]),
         "P9" => cat(&[ins(0x79, 0, 1, 0x40, 0), ins(0x95, 0, 0, 0, 0)]),
@@ -40,6 +42,10 @@ fn custom(p: &[u8]) -> Result<(), std::io::Error> {
 }
 fn calc64(_p: &[u8], _pc: usize, _d: &mut dyn std::any::Any) -> u16 {
     64
+}
+/// looks at the program: 64 if it starts with mov64 r1, r10 (P5), else 32
+fn calc_byprog(p: &[u8], _pc: usize, _d: &mut dyn std::any::Any) -> u16 {
+    if p.first() == Some(&0xbf) { 64 } else { 32 }
 }
 
 fn layout(name: &str) -> (usize, usize) {
@@ -105,8 +111,15 @@ fn perform(vm: &mut Vm, b: &Bufs, op: &str, arg: &Value) -> String {
             let f: rbpf::Verifier = match arg.as_str().unwrap() { "acceptAll" => accept_all, "rejectAll" => reject_all, _ => custom };
             call(&mut || vm.set_verifier(f).map(|_| "ok".to_string()))
         }
-        "register_helper" => call(&mut || vm.register_helper(1, exec::HELPERS[0]).map(|_| "ok".to_string())),
-        "set_calc" => call(&mut || vm.set_calc(calc64, Box::new(())).map(|_| "ok".to_string())),
+        // "a": the function of slot 0 (bound to id 1: returns 5 + 1 for P4), "b": slot 1 (bound to id 3: 5 + 3)
+        "register_helper" => {
+            let f = if arg == "b" { exec::HELPERS[1] } else { exec::HELPERS[0] };
+            call(&mut || vm.register_helper(1, f).map(|_| "ok".to_string()))
+        }
+        "set_calc" => {
+            let f: rbpf::StackUsageCalculator = if arg == "byprog" { calc_byprog } else { calc64 };
+            call(&mut || vm.set_calc(f, Box::new(())).map(|_| "ok".to_string()))
+        }
         "jit_compile" => call(&mut || vm.jit_compile().map(|_| "ok".to_string())),
         "cl_compile" => call(&mut || vm.cranelift_compile().map(|_| "ok".to_string())),
         "exec" | "exec_jit" | "exec_cl" => {
@@ -131,6 +144,7 @@ fn perform(vm: &mut Vm, b: &Bufs, op: &str, arg: &Value) -> String {
 pub fn run_script(job: &Value) -> Value {
     let kind = job["kind"].as_str().unwrap();
     exec::set_helper_id(0, 1);
+    exec::set_helper_id(1, 3);
     let b = make_bufs();
     let mut events: Vec<Value> = Vec::new();
     let first = job["first"].as_str().filter(|s| *s != "none");
@@ -153,7 +167,8 @@ pub fn run_history(job: &Value) -> Value {
     let len = job["len"].as_u64().unwrap() as usize;
     let mut r = Rng::new(seed);
     exec::set_helper_id(0, 1);
-    let mut progs: Vec<&str> = vec!["P1", "P2", "P3", "P4", "P5", "PX"];
+    exec::set_helper_id(1, 3);
+    let mut progs: Vec<&str> = vec!["P1", "P2", "P3", "P4", "P5", "P6", "PX"];
     if kind != "nodata" {
         progs.push("P7");
     }
@@ -194,10 +209,10 @@ pub fn run_history(job: &Value) -> Value {
             arg = json!(v);
         } else if choice < 43 {
             op = "register_helper";
-            arg = json!(1);
+            arg = json!(*r.pick(&["a", "b"]));
         } else if choice < 47 {
             op = "set_calc";
-            arg = json!(64);
+            arg = json!(*r.pick(&["k64", "byprog"]));
         } else if choice < 57 {
             op = "jit_compile";
             arg = json!("none");
